@@ -62,7 +62,10 @@ func genPkgContents(r *rng.R, t *SrcTree) []wire.Content {
 		case 6:
 			cs = append(cs, wire.Content{Dst: fmt.Sprintf("/var/lib/app/d%d", i), Type: "dir", Info: fi(), Packager: tag()})
 		case 7:
-			cs = append(cs, wire.Content{Src: rng.Pick(r, []string{"/usr/bin/f0", "../lib/target", "rel"}), Dst: fmt.Sprintf("/usr/bin/l%d", i), Type: "symlink", Packager: tag()})
+			// the target of a declared symlink is text: a path that does not exist on the build host, a relative one, and
+			// paths that do exist there – a file, a directory (of the source tree: whole-second mtimes) – must all be shipped
+			// as links with that literal target
+			cs = append(cs, wire.Content{Src: rng.Pick(r, []string{"/usr/bin/f0", "../lib/target", "rel", filepath.Join(t.Root, "bin/tool"), filepath.Join(t.Root, "etc"), filepath.Join(t.Root, "tree")}), Dst: fmt.Sprintf("/usr/bin/l%d", i), Type: "symlink", Packager: tag()})
 		case 8:
 			cs = append(cs, wire.Content{Src: rng.Pick(r, []string{filepath.Join(t.Root, "tree"), filepath.Join(t.Root, "tree/sub")}), Dst: fmt.Sprintf("/usr/share/app/t%d", i), Type: "tree", Info: fi(), Packager: tag()})
 		case 9:
@@ -121,13 +124,18 @@ func canonMTimes(dec []wire.Member, model []wire.Member, t0, t1 int64) {
 		if (mm.MTime == nowSentinel || mm.MTime == 4294967295) && dec[i].MTime >= t0-2 && dec[i].MTime <= t1+2 {
 			dec[i].MTime = mm.MTime
 		}
+		// with no package mtime configured the clock is read more than once – when the plan the model starts from is
+		// prepared and again when the package is built: two readings inside the window of this case are the same "now"
+		if mm.MTime >= t0-2 && mm.MTime <= t1+2 && dec[i].MTime >= t0-2 && dec[i].MTime <= t1+2 {
+			dec[i].MTime = mm.MTime
+		}
 	}
 }
 
 // payloadCase: one spec x one format through implementation, model and spec.
 func payloadCase(c *Ctx, fam *report.Family, famName string, s *PkgSpec, format string) (dec *Decoded, plan []wire.Content, ok bool) {
-	plan, perr := RealPlan(s, format)
 	t0 := time.Now().Unix()
+	plan, perr := RealPlan(s, format)
 	data, berr := BuildPkg(format, s.Info())
 	t1 := time.Now().Unix()
 	key := fmt.Sprintf("%s|%v", format, s.Input())
